@@ -133,6 +133,8 @@ SimpDiv(l, r) ==
             IF IsRealC(l) THEN RealC(QDiv(QOf(l), QOf(r))) ELSE IntC(IntDiv(l.i[1], r.i[1]))
       [] IsC(l) /\ IsZero(l) -> l
       [] IsC(r) /\ IsOne(r) -> l
+      \* FormulaManager.Div rewrites a division by a non-zero Real constant as a product with its inverse
+      [] IsRealC(r) /\ ~IsZero(r) -> Op("times", <<l, RealC(QDiv(<<1, 1>>, QOf(r)))>>)
       [] OTHER -> Op("div", <<l, r>>)
 
 SimpPow(b, e) == IF IsC(b) /\ ~(IsZero(b) /\ e.i[1] < 0) THEN RealC(QPow(QOf(b), e.i[1])) ELSE Op("pow", <<b, e>>)
